@@ -226,7 +226,23 @@ fn solve(m: &mut Model, g: &Value, env: &Env, sk: &mut dyn FnMut(&mut Model, &En
             other => other,
         },
         "call" => solve(m, &g["a"], env, sk),
-        "once" | "ite" | "not" => {
+        "fall" => {
+            // findall(t, A, _): every solution of A is produced (marks!), bindings are not kept
+            let r = {
+                let mut k1 = |_m: &mut Model, _e: &Env| Ctl::Fail;
+                solve(m, &g["a"], env, &mut k1)
+            };
+            match r {
+                Ctl::Fail => sk(m, env),
+                other => other,
+            }
+        }
+        "forall" => {
+            // forall(A, B) == \+ (A, \+ B)
+            let inner = json!({"t": "not", "a": {"t": "conj", "a": g["a"].clone(), "b": {"t": "not", "a": g["b"].clone()}}});
+            solve(m, &inner, env, sk)
+        }
+        "once" | "first" | "ite" | "not" => {
             // first solution of the condition
             let cond = &g["a"];
             let mut first: Option<Env> = None;
@@ -246,7 +262,7 @@ fn solve(m: &mut Model, g: &Value, env: &Env, sk: &mut dyn FnMut(&mut Model, &En
                 return Ctl::Stop;
             }
             match g["t"].as_str().unwrap() {
-                "once" => match first {
+                "once" | "first" => match first {
                     Some(e) => sk(m, &e),
                     None => Ctl::Fail,
                 },
@@ -316,6 +332,9 @@ fn goal_text(g: &Value) -> String {
         "disj" => format!("({} ; {})", goal_text(&g["a"]), goal_text(&g["b"])),
         "call" => format!("call({})", goal_text(&g["a"])),
         "once" => format!("once({})", goal_text(&g["a"])),
+        "first" => format!("c12_first({})", goal_text(&g["a"])),
+        "fall" => format!("findall(t, {}, _)", goal_text(&g["a"])),
+        "forall" => format!("forall({}, {})", goal_text(&g["a"]), goal_text(&g["b"])),
         "not" => format!("\\+ {}", goal_text(&g["a"])),
         "ite" => format!("({} -> {} ; {})", goal_text(&g["a"]), goal_text(&g["b"]), goal_text(&g["c"])),
         "catch" => format!("catch({}, {}, {})", goal_text(&g["a"]), pat_text(&g["pat"]), goal_text(&g["r"])),
@@ -359,7 +378,12 @@ fn gen_goal(rng: &mut Prng, depth: u32, next_mark: &mut i64) -> Value {
         8 => json!({"t": "ite", "a": gen_goal(rng, depth - 1, next_mark), "b": gen_goal(rng, depth - 1, next_mark), "c": gen_goal(rng, depth - 1, next_mark)}),
         9 => json!({"t": "not", "a": gen_goal(rng, depth - 1, next_mark)}),
         10 => json!({"t": "once", "a": gen_goal(rng, depth - 1, next_mark)}),
-        11 => json!({"t": "call", "a": gen_goal(rng, depth - 1, next_mark)}),
+        11 => match rng.below(4) {
+            0 => json!({"t": "call", "a": gen_goal(rng, depth - 1, next_mark)}),
+            1 => json!({"t": "first", "a": gen_goal(rng, depth - 1, next_mark)}),
+            2 => json!({"t": "fall", "a": gen_goal(rng, depth - 1, next_mark)}),
+            _ => json!({"t": "forall", "a": gen_goal(rng, depth - 1, next_mark), "b": gen_goal(rng, depth - 1, next_mark)}),
+        },
         12..=16 => {
             let pat = match rng.below(10) {
                 0..=1 => json!({"p": "any"}),
